@@ -30,6 +30,7 @@ def check(ctx):
     ctx.rule("R2", "no content-changing string operation is applied to the joined text in regions that can lie inside a token", floor=1)
     ctx.rule("R4", "between two words of a subprocess command the formatter neither creates nor removes a gap: every constant spacing decision is taken outside subprocess context, or agrees with the gap in the source (a gap separates two arguments, no gap joins them: `host:/path`, `a,b`, `if=/dev/zero`)", floor=8)
     ctx.rule("R7", "a macro body is kept byte for byte: in _space_between no gap is *decided* before the macro-verbatim test (`_macro_until_depth > 0 or _macro_alias_line` -> the source's own text between the two tokens) - every return that can be reached while a macro body is being formatted is that verbatim text or the empty glue inside one token; a constant or computed gap (two spaces before a comment, an indent) returned ahead of the test rewrites the raw argument the macro receives", floor=3)
+    ctx.rule("R8", "inside an f-string the gaps are the source's: between FSTRING_START and FSTRING_END the text of a replacement field is part of the literal's meaning (`{y = }` prints the spaces, `{y:{w}}` is a format spec in which a space is the sign flag), so the formatter must know it is inside one - some state of _Formatter is updated under a test of FSTRING_START / FSTRING_END and read by _space_between; without it the operator-spacing rules (`=`, `:`) rewrite the field", floor=1)
     ctx.rule("R5", "the formatter's text is decoded once: bytes it encodes itself are tokenized with that very encoding, not with one re-detected from a coding cookie inside the text", floor=1)
     ctx.rule("R6", "what the formatter remembers from one token to the next (indent step, line flags, depths) is computed from tokens, its own settings and constants - never from raw rows of the source text: a row can be a bracket continuation or lie inside a string, which only the tokenizer knows (an indent step read off such a row moves own-line comments further on every pass)", floor=15)
     ctx.rule("R3", "a file is rewritten only after format_source returned normally and changed the text; tokenizer errors become FormatError and are reported without writing", floor=5)
@@ -201,6 +202,7 @@ def check(ctx):
     _spacing(ctx, co)
     _state_from_tokens_only(ctx)
     _macro_body_verbatim(ctx)
+    _fstring_field_state(ctx)
     # ---- R5: encode(E) ... tokenize(bytes) re-detects the encoding from a PEP 263 cookie; the text was decoded already
     it = co.func("_Formatter._iter_tokens")
     encs = [c for c in calls_in(it) if last_attr(c) == "encode"]
@@ -464,6 +466,29 @@ def _verbatim(e, defs, RAW, depth=0):
                 return False
         return True
     return False
+
+
+def _fstring_field_state(ctx):
+    """R8: a token-derived 'inside an f-string' state exists and the spacing decision reads it."""
+    from ..engine.loader import class_methods
+
+    co = ctx.repo.module(CO)
+    ms = class_methods(co.cls("_Formatter"))
+    state = set()
+    for nm, f in ms.items():
+        for a in walk_local(f):
+            tg = a.targets if isinstance(a, ast.Assign) else [a.target] if isinstance(a, ast.AugAssign) else []
+            attrs = [t.attr for t in tg if isinstance(t, ast.Attribute) and unparse(t.value) == "self"]
+            if not attrs:
+                continue
+            if any(isinstance(g, (ast.If, ast.IfExp, ast.While)) and any(isinstance(x, ast.Name) and x.id in ("FSTRING_START", "FSTRING_END") for x in ast.walk(g.test)) for g in ancestors(a)):
+                state |= set(attrs)
+    sb = ms.get("_space_between")
+    if sb is None:
+        raise AnalysisError(f"{CO}:_Formatter._space_between missing")
+    read = {x.attr for x in ast.walk(sb) if isinstance(x, ast.Attribute) and unparse(x.value) == "self"} & state
+    ok = bool(read)
+    ctx.ob("R8", f"{CO}:_Formatter", "a state updated on FSTRING_START / FSTRING_END is read by _space_between", ok, key="_Formatter|no-fstring-field-state", where=loc(sb), detail=None if ok else (f"state updated on the f-string delimiters: {sorted(state) or 'none'}; _space_between reads none of it" + " - `=` and `:` inside a replacement field are spaced like operators of a statement"))
 
 
 def _macro_body_verbatim(ctx):
